@@ -21,7 +21,8 @@ pub const RULE: &str = "one case = one request (uid) of a generated scenario \
 documented default Detached x final close() after all handlers ended / called while \
 victims' handlers still wait (detached oracle only; C close called, Z close returned) x \
 handler keeps / drops its RequestContext before waiting x tokio workers 1/2/4/16 x CPU hogs x 1..128 concurrent connections x \
-per-request handler kind gated/gated-post/stepping/big/panicking/(rare, tagged) \
+per-request handler kind gated/gated-post/stepping/big/panicking/handler-returns-error/\
+unknown-path/bad-query (requests ending with an error response, clients stay)/(rare, tagged) \
 stream-unread-body x disconnect phase \
 P0 head half-sent/P0b body half-sent/P1 after last byte/P2 after observed H_ENTER/P3 \
 after H_DONE during the 8 MB response write/P4 never x style close/RST); class = \
@@ -44,12 +45,24 @@ enum Kind {
     /// tagged exotic class: POST with a 200 kB body to a handler that holds the
     /// body unread while it waits (StreamingBody extractor)
     Stream,
+    /// requests that END WITH AN ERROR RESPONSE and whose clients stay: a handler
+    /// returning Err after its gate, an unknown path (404), a bad query (400)
+    Failing,
+    NotFound,
+    BadQuery,
     /// panicking request with a second request pipelined behind it on the
     /// same connection (separately tagged class, counted, not judged)
     PanicPipe,
 }
 
 impl Kind {
+    /// does a handler of this kind wait for its per-uid gate?
+    fn has_gate(self) -> bool {
+        !matches!(self, Kind::Panicking | Kind::PanicPipe | Kind::NotFound | Kind::BadQuery)
+    }
+    fn error_ending(self) -> bool {
+        matches!(self, Kind::Failing | Kind::NotFound | Kind::BadQuery)
+    }
     fn tag(self) -> &'static str {
         match self {
             Kind::Gated => "gated",
@@ -57,6 +70,9 @@ impl Kind {
             Kind::Stepping => "stepping",
             Kind::Big => "big",
             Kind::Stream => "stream-unread-body",
+            Kind::Failing => "handler-returns-error",
+            Kind::NotFound => "unknown-path",
+            Kind::BadQuery => "bad-query",
             Kind::Panicking => "panicking",
             Kind::PanicPipe => "panic+pipelined",
         }
@@ -67,6 +83,9 @@ impl Kind {
             Kind::Stepping => "/stepping",
             Kind::Big => "/big",
             Kind::Stream => "/stream",
+            Kind::Failing => "/failing",
+            Kind::NotFound => "/no/such/path",
+            Kind::BadQuery => "/typed?n=abc",
             Kind::Panicking | Kind::PanicPipe => "/panicking",
         }
     }
@@ -284,12 +303,28 @@ fn gen_scenario(rng: &mut Rng, quick: bool) -> Sc {
         }
         plans.push(p);
     }
+    // a few requests per scenario that complete with an error response
+    for _ in 0..1 + rng.usize(2) {
+        let mut p = plans[rng.usize(plans.len())].clone();
+        p.uid = next_uid();
+        p.uid2 = None;
+        p.phase = Phase::P4;
+        p.kind = *rng.pick(&[Kind::Failing, Kind::Failing, Kind::NotFound, Kind::BadQuery]);
+        p.size = 0;
+        p.slow_reader = false;
+        p.read_before = 0;
+        p.open_at = *rng.pick(&[OpenAt::Pre, OpenAt::AfterEnter, OpenAt::AtRelease]);
+        p.delay_us = rng.below(3000);
+        plans.push(p);
+    }
     Sc { named, mode, close_early, workers, hogs, plans }
 }
 
 #[derive(Default, Clone, Debug)]
 struct COut {
     connected: bool,
+    /// connect() was refused although the server had not been closed
+    refused: bool,
     outcome: Option<Outcome>,
     outcome2: Option<Outcome>,
     inconclusive: Vec<String>,
@@ -316,6 +351,10 @@ fn open_gate(env: &Env, uid: u64) {
     env.ctx.gates.open(uid);
 }
 
+fn log_refused(env: &Env, uid: u64) {
+    env.log.push("C_CONNECT_REFUSED", uid, 0, "");
+}
+
 fn encode(p: &Plan, inst: u64) -> Vec<u8> {
     let mut r = mk_req(inst, p.kind.path(), p.uid, p.size, p.k, p.step_us);
     if p.kind == Kind::GatedPost {
@@ -338,11 +377,17 @@ fn client(p: &Plan, env: &Env) -> COut {
     let mut conn = match Conn::connect(env.addr) {
         Ok(c) => c,
         Err(e) => {
-            out.inconclusive.push(if is_resource_err(&e) {
-                "c16-connect-resource-error".into()
+            if e.kind() == std::io::ErrorKind::ConnectionRefused {
+                // the scenario's server is never closed while clients connect
+                log_refused(env, p.uid);
+                out.refused = true;
             } else {
-                format!("c16-connect-failed:{:?}", e.kind())
-            });
+                out.inconclusive.push(if is_resource_err(&e) {
+                    "c16-connect-resource-error".into()
+                } else {
+                    format!("c16-connect-failed:{:?}", e.kind())
+                });
+            }
             return out;
         }
     };
@@ -432,7 +477,7 @@ fn client(p: &Plan, env: &Env) -> COut {
             do_disc(conn);
         }
         Phase::P4 => {
-            let gated = !matches!(p.kind, Kind::Panicking | Kind::PanicPipe);
+            let gated = p.kind.has_gate();
             if gated && p.open_at == OpenAt::Pre {
                 open_gate(env, uid);
             }
@@ -455,7 +500,11 @@ fn client(p: &Plan, env: &Env) -> COut {
                 std::thread::sleep(Duration::from_micros(p.open_delay_us));
                 open_gate(env, uid);
             }
-            let o = read_and_verify(&mut conn, uid, p.size, WD_READ);
+            let o = if p.kind.error_ending() {
+                read_error_response(&mut conn, WD_READ)
+            } else {
+                read_and_verify(&mut conn, uid, p.size, WD_READ)
+            };
             log.push("C_RESP", uid, 0, &o.tag());
             let ok = o == Outcome::Ok200;
             out.outcome = Some(o);
@@ -507,9 +556,16 @@ fn health(env: &Env) -> Result<(), (bool, String)> {
 fn close_with_watchdog(r: &mut Running, secs: u64) -> Option<Result<(), String>> {
     let server = r.server.take()?;
     let rt = r.rt.as_ref()?;
-    rt.block_on(async {
-        tokio::time::timeout(Duration::from_secs(secs), server.close()).await.ok()
-    })
+    // close() itself may panic (e.g. when the server task has died): that is an
+    // outcome to report, not a reason for the engine to die
+    match vmon::panics::catch_quiet(std::panic::AssertUnwindSafe(|| {
+        rt.block_on(async {
+            tokio::time::timeout(Duration::from_secs(secs), server.close()).await.ok()
+        })
+    })) {
+        Ok(r) => r,
+        Err(p) => Some(Err(format!("close() panicked: {}", p.message))),
+    }
 }
 
 pub fn run_scenario(out: &mut Out, seed: u64, shard: u64, case: u64, quick: bool) {
@@ -566,8 +622,7 @@ pub fn run_scenario(out: &mut Out, seed: u64, shard: u64, case: u64, quick: bool
         // release: non-victims waiting for the driver; in detached mode also the
         // victims (their handlers must now run to completion without a client)
         for p in &sc.plans {
-            let gated = !matches!(p.kind, Kind::Panicking | Kind::PanicPipe);
-            if !gated {
+            if !p.kind.has_gate() {
                 continue;
             }
             // (with close_early the victims' gates stay shut until close() has
@@ -629,7 +684,7 @@ pub fn run_scenario(out: &mut Out, seed: u64, shard: u64, case: u64, quick: bool
     marks.push(("strict_checked", t0.elapsed().as_secs_f64()));
     let open_rest = |env: &Env| {
         for p in &sc.plans {
-            if !matches!(p.kind, Kind::Panicking | Kind::PanicPipe) && !ctx.gates.is_open(p.uid) {
+            if p.kind.has_gate() && !ctx.gates.is_open(p.uid) {
                 open_gate(env, p.uid);
             }
         }
@@ -641,19 +696,23 @@ pub fn run_scenario(out: &mut Out, seed: u64, shard: u64, case: u64, quick: bool
         // from this thread, independently of close() returning
         health_res = health(&env);
         drop(hogs);
-        let server = running.server.take().unwrap();
         let lg = log.clone();
-        running.handle().spawn(async move {
-            lg.push("S_CLOSE_CALL", 0, 0, "");
-            let r = server.close().await;
-            lg.push("S_CLOSE_RET", 0, r.is_ok() as i64, &format!("{r:?}"));
-        });
+        if let Some(server) = running.server.take() {
+            running.handle().spawn(async move {
+                use futures::FutureExt;
+                lg.push("S_CLOSE_CALL", 0, 0, "");
+                match std::panic::AssertUnwindSafe(server.close()).catch_unwind().await {
+                    Ok(r) => lg.push("S_CLOSE_RET", 0, r.is_ok() as i64, &format!("{r:?}")),
+                    Err(_) => lg.push("S_CLOSE_RET", 0, -1, "close() panicked"),
+                };
+            });
+        }
         let _ = log.wait_for(|e| e.kind == "S_CLOSE_CALL", WD_OBSERVE);
         std::thread::sleep(Duration::from_micros(rng.below(6000)));
         open_rest(&env);
         closed = log
             .wait_for(|e| e.kind == "S_CLOSE_RET", Duration::from_secs(20))
-            .map(|_| Ok::<(), String>(()));
+            .map(|e| if e.n >= 0 { Ok::<(), String>(()) } else { Err(e.s) });
         quiescent = wait_handlers_ended(&log, Duration::from_secs(15));
     } else {
         // open every remaining gate and let the server come to rest
@@ -677,8 +736,16 @@ pub fn run_scenario(out: &mut Out, seed: u64, shard: u64, case: u64, quick: bool
     count_kinds(rep, &events);
     out.maxc = out.maxc.max(max_concurrency(&events));
     let had_panic = sc.plans.iter().any(|p| matches!(p.kind, Kind::Panicking | Kind::PanicPipe));
-    if closed.is_none() {
-        rep.inconclusive("c16-final-close-watchdog");
+    match &closed {
+        None => rep.inconclusive("c16-final-close-watchdog"),
+        Some(Ok(())) => rep.count("final_close_ok", 1),
+        Some(Err(e)) if e.contains("panicked") => rep.violate(
+            if had_panic { "C16:panic:close-panicked-afterwards" } else { "C16:close-panicked" },
+            json!({"ident": ident, "close": e,
+                   "what": "HttpServer::close() panicked at the end of the scenario: the server task had died",
+                   "history": history_json(&events, 300)}),
+        ),
+        Some(Err(_)) => rep.count("final_close_err", 1),
     }
     match &health_res {
         Ok(()) => rep.count("health_probes_ok", 1),
@@ -701,6 +768,18 @@ pub fn run_scenario(out: &mut Out, seed: u64, shard: u64, case: u64, quick: bool
     for (p, co) in sc.plans.iter().zip(couts.iter()) {
         for r in &co.inconclusive {
             rep.inconclusive(r);
+        }
+        if co.refused {
+            rep.violate(
+                if had_panic {
+                    "C16:panic:connection-refused-by-running-server"
+                } else {
+                    "C16:connection-refused-by-running-server"
+                },
+                json!({"ident": ident, "plan": p.json(),
+                       "what": "connect() to the server's address was refused although the server had not been closed: it has stopped accepting connections",
+                       "history": history_json(&events, 300)}),
+            );
         }
         if !co.connected {
             continue;
@@ -823,6 +902,22 @@ pub fn run_scenario(out: &mut Out, seed: u64, shard: u64, case: u64, quick: bool
                         );
                     }
                 }
+                (k, Some(o)) if k.error_ending() => {
+                    // the request completes with an error response, delivered to
+                    // the client that stayed (which 4xx: not constrained here)
+                    match o {
+                        Outcome::Status(s) if (400..500).contains(s) => {
+                            rep.count("error_responses_delivered", 1)
+                        }
+                        o if o.is_harness_trouble() => {
+                            rep.inconclusive(&format!("c16-nonvictim-{}", o.tag()))
+                        }
+                        o => rep.violate(
+                            format!("C16:{m}:error-response-not-delivered-{}", o.tag()),
+                            wit("a request that ends with an error response: its client stayed connected but did not receive a complete 4xx response"),
+                        ),
+                    }
+                }
                 (_, Some(o)) => {
                     if o.is_harness_trouble() {
                         rep.inconclusive(&format!("c16-nonvictim-{}", o.tag()));
@@ -902,7 +997,14 @@ pub fn run_shard(seed: u64, shard: u64, nshards: u64, total: u64, quick: bool) -
     let mut out = Out::new(Report::new("C16", "c16-disconnect", RULE));
     let mut case = shard;
     while case < total {
-        run_scenario(&mut out, seed, shard, case, quick);
+        // a panic of the harness itself on this thread (thread spawn failure,
+        // ...) makes this scenario inconclusive; it must not kill the engine
+        let r = vmon::panics::catch_quiet(std::panic::AssertUnwindSafe(|| {
+            run_scenario(&mut out, seed, shard, case, quick)
+        }));
+        if r.is_err() {
+            out.rep.inconclusive("c16-scenario-aborted-by-harness-panic");
+        }
         case += nshards;
     }
     out
